@@ -867,6 +867,15 @@ def new_server(sc, fresh_factory=True, **kw):
     return s
 
 
+def settings_at(sc, i):
+    """(retries, delay) in force for request i: the scenario's, or what the application set between two requests"""
+    retries, delay = sc['retries'], sc['delay']
+    for r in sc['reqs'][:i + 1]:
+        if r.get('set'):
+            retries, delay = r['set'].get('retries', retries), r['set'].get('delay', delay)
+    return retries, delay
+
+
 def req_of(r):
     cls_, id_ = r['cid']
     return make_req(cls_, id_, bytes.fromhex(r['payload']), r['resp'])
@@ -897,6 +906,12 @@ def run_sequence(sc):
         starts.append((CLK.ticks, list(s.link.pending), len(s.sent), len(s.rx_trace), len(s.calls), bytes(s.link.buf) if keeps else b'',
                        s.link.data_reads))
         s.link.begin(i)
+        if r.get('set'):
+            # the application changes the retry settings between two requests (as a bit-rate search does)
+            if 'retries' in r['set']:
+                s.set_retries(r['set']['retries'])
+            if 'delay' in r['set']:
+                s.set_retry_delay(r['set']['delay'])
         if r.get('retarget') and prev_obj is not None:
             # ONE scratch frame object re-pointed at another message between two requests (frame.CID = …), payload as it was
             req = prev_obj
@@ -920,6 +935,9 @@ def run_alone(sc, i, start):
     tick, pending = start[0], start[1]
     CLK.ticks = tick
     s = new_server(sc, req_index=i, pending=pending, buffered=start[5])
+    rt, dl = settings_at(sc, i)
+    s.set_retries(rt)
+    s.set_retry_delay(dl)
     s.link.data_reads = start[6]            # (a connection that gpsd has closed, or is about to close, is the transport's state, not the server's)
     s.link.begin(i)
     out = call(s, sc['reqs'][i]['kind'], req_of(sc['reqs'][i]))
@@ -937,7 +955,7 @@ def real_seqs(line):
 def model_line_seqs(line):
     """the recorded back-end trace as the model's environment"""
     sc = json.loads(line.split('|', 1)[1])
-    if sc.get('boom') or sc.get('txtime') or sc.get('backoff'):
+    if sc.get('boom') or sc.get('txtime') or sc.get('backoff') or any(r.get('set') for r in sc['reqs']):
         return 'no-model'              # (the model's transmissions take no time, its settings do not change under way)
     s, outs, starts, per_req = run_sequence(sc)
     return '|'.join(['seq', str(sc['retries']), str(sc['delay']), ','.join('1' if t else '0' for t in s.tx_trace),
@@ -979,13 +997,14 @@ def oracles_seqs(line, real_out):
         why4 = why4 or (w and f'request {i}: {w}')
         t0, t1 = starts[i][0], s.ends[i]
         nsent = len(per_req[i])
-        bound = time_bound_ticks(r['kind'], r['cid'][0], sc['retries'], sc['delay'], tmax) + nsent * sc.get('txtime', 0)
+        rt_i, dl_i = settings_at(sc, i)
+        bound = time_bound_ticks(r['kind'], r['cid'][0], rt_i, dl_i, tmax) + nsent * sc.get('txtime', 0)
         if r['kind'] == 'faf':
             if nsent != 1 or 'r' in s.calls[c0:c1]:
                 why5 = why5 or f'request {i}: fire_and_forget made {nsent} transmissions / read'
         elif boomed:
             pass
-        elif outs[i] == 'TIMEOUT' or nsent > sc['retries'] + 1 or t1 - t0 > bound:
+        elif outs[i] == 'TIMEOUT' or nsent > rt_i + 1 or t1 - t0 > bound:
             why5 = why5 or f'request {i}: {outs[i][:30]} after {nsent} transmissions and {t1 - t0} ticks (bound {float(bound):.1f})'
     recs.append({'prop': 'C04', 'ok': why4 is None, 'expected': 'nothing, or a fresh, matching (and for CFG acknowledged) answer',
                  'observed': why4 or 'ok', 'what': 'requests return only fresh, matching and (for CFG) acknowledged answers'})
@@ -1086,6 +1105,27 @@ def gen_c06(rng):
             others.append(hc)
             history.append({'kind': 'poll', 'cid': list(hc), 'payload': '', 'resp': '0', 'tx': [True],
                             'timelines': [[(2, (frame(hc[0], hc[1], rand_payload(rng, 6)) + frame(5, 1, list(hc))).hex())]]})
+    # … and requests of the other kinds, answered at once, in any order: a set, an MGA set, a poll outside the configuration class, a
+    # frame fired and forgotten (what one kind of request leaves behind - a filter, a list it handed to the parser - meets the next kind)
+    if rng.random() < 0.45:
+        extra = []
+        for hk in rng.sample(['set', 'mga', 'pollx', 'faf', 'set'], rng.choice([1, 2, 3])):
+            if hk == 'set':
+                hc = rng.choice([(6, 1), (6, 0x17), (6, 0x3e)])
+                extra.append({'kind': 'set', 'cid': list(hc), 'payload': rand_payload(rng, 4).hex(), 'resp': '0', 'tx': [True],
+                              'timelines': [[(2, frame(5, 1, list(hc)).hex())]]})
+            elif hk == 'mga':
+                extra.append({'kind': 'mga', 'cid': [0x13, 0x40], 'payload': rand_payload(rng, 8).hex(), 'resp': '0', 'tx': [True],
+                              'timelines': [[(2, frame(0x13, 0x60, [1, 0, 0, 0x40, 0, 0, 0, 0]).hex())]]})
+            elif hk == 'pollx':
+                hc = rng.choice([(1, 3), (0x0a, 4), (0x10, 0x10)])
+                if hc != (cls_, id_):
+                    others.append(hc)
+                    extra.append({'kind': 'poll', 'cid': list(hc), 'payload': '', 'resp': '0', 'tx': [True],
+                                  'timelines': [[(2, frame(hc[0], hc[1], rand_payload(rng, 6)).hex())]]})
+            else:
+                extra.append({'kind': 'faf', 'cid': [6, 4], 'payload': rand_payload(rng, 4).hex(), 'resp': '0', 'tx': [True], 'timelines': [[]]})
+        history = history + extra if rng.random() < 0.5 else extra + history
     # the answer
     pre = b''.join(benign(rng, awaited, others) for _ in range(rng.choice([0, 0, 1, 2, 3] if not others else [1, 2, 3])))
     if kind == 'set':
@@ -1217,9 +1257,14 @@ def gen_sequence(rng):
         sc['background'] = [rng.choice([50, 100, 200, 250]), rng.choice([frame(1, 7, rand_payload(rng, 8)), b'$GPGGA,1,2*33\r\n', frame(0x10, 2, rand_payload(rng, 4))]).hex()]
     if rng.random() < 0.08:
         sc['txtime'] = rng.choice([1, dticks // 2, dticks, 3 * dticks])
-    if rng.random() < 0.08 and len(reqs) > 1:
+    if rng.random() < 0.12 and len(reqs) > 1:
         sc['boom'] = {'req': rng.randrange(len(reqs) - 1), 'at': rng.choice([1, 1, 2, 3, 6]),
                       'exc': rng.choice(['KeyboardInterrupt', 'OSError', 'SerialException'])}
+        if rng.random() < 0.6:
+            # … after which the application goes on with other settings (a shorter delay: what was armed before must not outlive the fault)
+            reqs[sc['boom']['req'] + 1]['set'] = {'delay': rng.choice([1, 50, 125]), 'retries': rng.choice([0, 0, 1])}
+    elif rng.random() < 0.12 and len(reqs) > 1:
+        reqs[rng.randrange(1, len(reqs))]['set'] = {'delay': rng.choice([1, 125, 500, 1800]), 'retries': rng.randrange(0, 4)}
     if rng.random() < 0.15:
         # another frame leaves through fire_and_forget() while a request of the sequence is waiting; the receiver may well
         # acknowledge THAT frame (an ACK naming another request)
@@ -1653,6 +1698,14 @@ def gen_scan1(rng, n, profile):
                     piece = b'$' + body + b'*' + (b'%02X' % x) + b'\r\n'       # valid only if the high bytes were dropped
                     piece = piece * 2
                 stream += piece
+            elif k < .62:
+                # noise that is ALMOST traffic: an abandoned start of a frame, then what would be a frame if the abandoned bytes counted in
+                # its checksum - no frame at all; once, or (as noise at a wrong bit rate repeats) twice or three times
+                import comp_parsers
+                start, bad = comp_parsers.summed_over_more(rng)
+                if start[-1] == 0xb5 and rng.random() < 0.6:
+                    bad = bad[1:]
+                stream += (start + bad) * rng.choice([1, 2, 2, 3])
             elif k < .7:
                 stream += bytes(rng.randrange(256) for _ in range(rng.randrange(1, 12)))
             elif k < .8:
